@@ -153,9 +153,24 @@ def check_jumps(tr, j, sys_, occ, ctx, what, wit, rng):
                 break
         else:
             ctx.decided()
+        # history: thresholded graphs (other arguments of the same cached method), then the plain graph again
+        eacts = {e: float(G.edges[e]['e_act']) for e in G.edges}
+        if len(eacts) >= 2:
+            vals = sorted(eacts.values())
+            thr = 0.5 * (vals[len(vals) // 2 - 1] + vals[len(vals) // 2])
+            if thr != 0 and all(abs(v - thr) > 1e-12 for v in vals):
+                for kw, keep in (({'max_e_act': thr}, lambda v: v <= thr), ({'min_e_act': thr}, lambda v: v >= thr)):
+                    Gt = j.to_graph(**kw)
+                    want_e = {e for e, v in eacts.items() if keep(v)}
+                    ctx.check(set(Gt.edges) == want_e, f'{what}: to_graph({kw}) has edges {sorted(Gt.edges)}, expected those with e_act inside the window: {sorted(want_e)}', wit)
+                G_again = j.to_graph()
+                ctx.check(set(G_again.edges) == support and all(abs(float(G_again.edges[e]['e_act']) - eacts[e]) <= 1e-12 * max(1, abs(eacts[e])) for e in support), f'{what}: to_graph() after thresholded calls has edges {sorted(G_again.edges)}; the jump matrix has support {sorted(support)}', wit)
+                ctx.count('graph_threshold_histories')
     else:
         ctx.count('attempt_frequency_not_finite')
         ctx.check(edges <= support, f'{what}: jump graph has edges outside the support of the jump matrix', wit)
+    # repeat the bookkeeping queries after everything else: same answers (cached or not)
+    ctx.check(np.array_equal(np.asarray(j.matrix()), want) and dict(j._counter()) == dict(pairs) and {k: v for k, v in j.counter().items() if v} == dict(want_lab), f'{what}: matrix()/_counter()/counter() changed after the other queries were made', wit)
     # rates: consistent aggregation of the per-part counters
     n_parts = int(rng.integers(2, 5))
     try:
